@@ -19,6 +19,9 @@ def main():
                 print(f"translated {m.name}")
             except TieBroken as e:
                 print(f"translator {m.name}: TIE BROKEN: {e}")
+    from . import gen_driver
+
+    gen_driver.generate()
     with obligations.LakeLock():
         rc, out = obligations.run(["lake", "build"])
     print(out[-3000:])
